@@ -328,6 +328,7 @@ type faultyReflection struct {
 	failAfter int // <0: never
 	clean     bool // ... and then end the stream with status OK instead of an error (the client sees io.EOF)
 	errReply  bool // ... or answer that one request with an ErrorResponse (NOT_FOUND) and carry on
+	endErr    bool // every request is answered; when the client has ended its side, the stream ends with an error status
 	active    int // reflection streams whose server handler has not returned yet
 }
 
@@ -385,7 +386,19 @@ func (f *faultyReflection) ServerReflectionInfo(stream rpb.ServerReflection_Serv
 	if errors.Is(err, errReflectionCleanEnd) || err != nil && strings.Contains(err.Error(), errReflectionCleanEnd.Error()) {
 		return nil // the stream just ends, status OK
 	}
+	f.mu.Lock()
+	endErr := f.endErr
+	f.mu.Unlock()
+	if err == nil && endErr {
+		return errReflection // everything was answered; the stream still ends badly
+	}
 	return err
+}
+
+func (f *faultyReflection) setEndErr(v bool) {
+	f.mu.Lock()
+	f.endErr = v
+	f.mu.Unlock()
 }
 
 func (f *faultyReflection) setFailAfter(n int) { f.setFail(n, false) }
